@@ -1,5 +1,5 @@
 """property id -> units and reporting metadata (single source for MANIFEST.json)"""
-from units import specificity, best, fragments, static_list, hashing, vptrs, resolve, generator
+from units import specificity, best, fragments, static_list, hashing, vptrs, resolve, generator, handlers
 
 A_TABLES = ('compiler::build_dispatch_tables (grouping of classes by applicability mask, strides, recursion order) '
             'and assign_slots / assign_tree_slots / assign_lattice_slots are NOT under contract '
@@ -83,6 +83,14 @@ PROPS = {
         'level': 'proof',
         'technique': 'TBD', 'level_text': 'TBD', 'level_note': 'TBD',
         'design_ref': 'DESIGN.md section 6 C12',
+        'unverified': [],
+        'assumptions': [],
+    },
+    'C02': {
+        'units': [handlers.jobs, fragments.jobs],
+        'level': 'proof',
+        'technique': 'TBD', 'level_text': 'TBD', 'level_note': 'TBD',
+        'design_ref': 'DESIGN.md section 6 C02',
         'unverified': [],
         'assumptions': [],
     },
